@@ -73,8 +73,10 @@ inductive Val where
   | chr (c : Char)
   | sym (s : Sym)
   | cons (a d : Val)
-  /-- `NormalFunction`; `params` is a proper list of (possibly metadata-wrapped) symbols, rest parameter last -/
-  | fn (kind : Kind) (rest : Bool) (params body env : Val) (mod : Name)
+  /-- `NormalFunction`; `params` is the proper list of the non-rest parameters (possibly metadata-wrapped symbols),
+  `rest` the rest parameter if the function has one (`has_rest_params` with the rest parameter last in `parameters`),
+  and `nil` if it has none (a parameter is always a symbol, never nil) -/
+  | fn (kind : Kind) (rest : Val) (params body env : Val) (mod : Name)
   | native (id : NativeId)
   | trap (normal handler : Val)
   /-- `MetaValue::Meta`; `v` is never itself a `meta` (`allocate_metadata` panics on that) -/
@@ -107,11 +109,16 @@ def getMeta : Val → Option Meta
 def strip : Val → Val
   | md v _ => strip v
   | cons a d => cons (strip a) (strip d)
-  | fn k r p b e m => fn k r (strip p) (strip b) (strip e) m
+  | fn k r p b e m => fn k (strip r) (strip p) (strip b) (strip e) m
   | trap n h => trap (strip n) (strip h)
   | v => v
 
 def symName (name : Name) : Val := sym (.named name)
+
+/-- the rest parameter stored in a function value: `nil` stands for "none" -/
+def restParam? : Val → Option Val
+  | nil => none
+  | r   => some r
 
 /-- build a proper list (`vec_to_list`) -/
 def ofList : List Val → Val
